@@ -79,7 +79,8 @@ ASSUMPTIONS = [
     "p-value tolerance rtol 1e-9 against exact rational binomial survival sums",
 ]
 
-ATTRS = ["color", "k", "role", "tags"]
+# "geo.country": a flat attribute whose NAME contains a dot (it is a key, not a path)
+ATTRS = ["color", "k", "role", "tags", "geo.country"]
 # "1"/"2" next to 1/2: an allowed value matches by equality, not by its printed form
 # falsy values (0, False, "", 0.0) are values like any other: an item holding one of them
 # under an attribute matches a criterion that allows it
@@ -89,8 +90,9 @@ LISTS = [["a", "b"], ["b", "a"], ["a"]]
 VALUES = SCALARS + LISTS
 # what the metadata of an item may hold under an attribute / what a criterion may allow for it
 META_POOL = {"color": ["red", "blue", "red", 1, "1"], "k": [1, 2, 1, "red", "1", "2"],
-             "role": VALUES, "tags": LISTS + LISTS + ["a"]}
-ALLOWED_POOL = {"color": SCALARS, "k": SCALARS, "role": VALUES, "tags": LISTS + ["a", "red"]}
+             "role": VALUES, "tags": LISTS + LISTS + ["a"], "geo.country": ["IT", "FR", "IT", 1]}
+ALLOWED_POOL = {"color": SCALARS, "k": SCALARS, "role": VALUES, "tags": LISTS + ["a", "red"],
+                "geo.country": ["IT", "FR", 1, "red"]}
 LAYERS = ["L1", "L2", "social"]
 # words that no tolerant reading (case, blanks) turns into keep/remove
 BAD_MODES = ["drop", "retain", "", None, "delete"]
@@ -112,6 +114,8 @@ def meta_st(draw):
         m["role"] = draw(st.sampled_from(META_POOL["role"]))
     if draw(st.integers(0, 3)) == 0:
         m["tags"] = draw(st.sampled_from(META_POOL["tags"]))
+    if draw(st.integers(0, 3)) == 0:
+        m["geo.country"] = draw(st.sampled_from(META_POOL["geo.country"]))
     return m
 
 
